@@ -304,6 +304,11 @@ fn parse_cron_part(
 
     let mut values = HashSet::new();
 
+    // Day of week also allows 7 as Sunday
+    let is_day_of_week = cron_type == &CronPartType::DayOfWeek;
+    let upper = if is_day_of_week { 7 } else { max };
+    let normalize = |value: u8| if is_day_of_week && value == 7 { 0 } else { value };
+
     for part in field.split(',') {
         if part == "*" {
             values.extend(min..=max);
@@ -334,25 +339,25 @@ fn parse_cron_part(
               );
             }
 
-            if start < min || end > max {
+            if start < min || end > upper {
                 return Err(format!(
                     "Only numbers between {} and {} are allowed",
-                    min, max
+                    min, upper
                 ));
             }
 
-            values.extend(start..=end);
+            values.extend((start..=end).map(normalize));
         } else {
             let value = parse_value(part, cron_type)?;
 
-            if value < min || value > max {
+            if value < min || value > upper {
                 return Err(format!(
                     "Only numbers between {} and {} are allowed",
-                    min, max
+                    min, upper
                 ));
             }
 
-            values.insert(value);
+            values.insert(normalize(value));
         }
     }
 
@@ -369,7 +374,6 @@ fn parse_value(value: &str, cron_type: &CronPartType) -> Result<u8, String> {
             let value = value.to_lowercase();
             DayOfWeek::from_str(&value)? as u8
         }
-        CronPartType::DayOfWeek if value == "7" => 0,
         _ => value
             .parse::<u8>()
             .map_err(|_| format!("Can't parse value to u8: {}", value))?,
